@@ -379,4 +379,378 @@ theorem arcsin_half_angle {x : ℝ} (h0 : 0 ≤ x) (h1 : x ≤ 1) :
     rw [← hcos]; exact Real.arccos_cos (by linarith) (by linarith)
   rw [Real.arcsin_eq_pi_div_two_sub_arccos, this]
 
+/-- `arcsin` is `20/17`-Lipschitz on `|s| ≤ 33/64` -/
+theorem arcsin_lipschitz {a b : ℝ} (ha : |a| ≤ 33 / 64) (hb : |b| ≤ 33 / 64) :
+    |Real.arcsin a - Real.arcsin b| ≤ 20 / 17 * |a - b| := by
+  have hconv : Convex ℝ (Set.Icc (-(33 / 64 : ℝ)) (33 / 64)) := convex_Icc _ _
+  have key := hconv.norm_image_sub_le_of_norm_hasDerivWithin_le
+    (f := Real.arcsin) (f' := fun s => 1 / Real.sqrt (1 - s ^ 2)) (C := 20 / 17) (x := b) (y := a)
+    (fun s hs => by
+      have h : s ^ 2 ≤ (33 / 64) ^ 2 := by
+        rw [← sq_abs]; exact pow_le_pow_left₀ (abs_nonneg _) (abs_le.2 hs) 2
+      refine (Real.hasDerivAt_arcsin ?_ ?_).hasDerivWithinAt
+      · intro e; rw [e] at h; norm_num at h
+      · intro e; rw [e] at h; norm_num at h)
+    (fun s hs => by
+      have h : s ^ 2 ≤ (33 / 64) ^ 2 := by
+        rw [← sq_abs]; exact pow_le_pow_left₀ (abs_nonneg _) (abs_le.2 hs) 2
+      have hu1 : (17 : ℝ) / 20 ≤ Real.sqrt (1 - s ^ 2) := by
+        refine Real.le_sqrt_of_sq_le ?_
+        norm_num at h ⊢; linarith
+      have hpos : 0 < Real.sqrt (1 - s ^ 2) := by linarith
+      rw [Real.norm_eq_abs, abs_of_pos (by positivity), div_le_iff₀ hpos]
+      linarith)
+    (abs_le.1 hb) (abs_le.1 ha)
+  simpa [Real.norm_eq_abs] using key
+
+/-- `y ≤ arcsin y` for `0 ≤ y ≤ 1` -/
+theorem le_arcsin {y : ℝ} (h0 : 0 ≤ y) (h1 : y ≤ 1) : y ≤ Real.arcsin y := by
+  have h := Real.sin_arcsin (by linarith) h1
+  have h2 : 0 ≤ Real.arcsin y := Real.arcsin_nonneg.2 h0
+  rcases h2.eq_or_lt with h3 | h3
+  · rw [← h3, Real.sin_zero] at h; linarith
+  · have := Real.sin_lt h3; linarith
+
+/-! ## 4. `restricted_tan`: table and approximation error (via `tan = sin / cos`) -/
+
+/-- `hi + lo` of the fourteen entries of the crate's `TAN_COEFFS`, exactly -/
+def tanCoeffs : List ℚ :=
+  [(13521606402433134963057248079801 : ℚ) / 2 ^ 105,
+   (21634570244396606238223534090029 : ℚ) / 2 ^ 107,
+   (560438389826539756193435792588055 : ℚ) / 2 ^ 113,
+   (227105779878089454029902674377263 : ℚ) / 2 ^ 113,
+   (184081500221250358656813615725923 : ℚ) / 2 ^ 114,
+   (149223377751435613958162555856347 : ℚ) / 2 ^ 115,
+   (120798077092238921997284586792159 : ℚ) / 2 ^ 116,
+   (198616448825962035871737875136771 : ℚ) / 2 ^ 118,
+   (572698854980726802615404727070795 : ℚ) / 2 ^ 121,
+   (198777714197251024143215338756651 : ℚ) / 2 ^ 120,
+   (-1838146241238958388428208632497489 : ℚ) / 2 ^ 125,
+   (275798470081708823847458695990779 : ℚ) / 2 ^ 121,
+   (-138375253862439008513795631819037 : ℚ) / 2 ^ 121,
+   (29876329288237549927180096300023 : ℚ) / 2 ^ 120]
+
+/-- the exact polynomial behind `restricted_tan`: `r·(r²·P(r²) + 1)` -/
+noncomputable def TanPoly (r : ℝ) : ℝ := r * (r ^ 2 * peval tanCoeffs (r ^ 2) + 1)
+
+def tanPolyQ (r : ℚ) : ℚ := r * (r ^ 2 * pevalQ tanCoeffs (r ^ 2) + 1)
+
+theorem tanPolyQ_cast (r : ℚ) : ((tanPolyQ r : ℚ) : ℝ) = TanPoly (r : ℝ) := by
+  unfold tanPolyQ TanPoly; push_cast; rw [pevalQ_cast]; push_cast; ring
+
+/-- `s(t) − W(t)·c(t)`: `sin r − TanPoly r · cos r = r · tanG(r²) + Taylor remainders` -/
+def tanG : List ℚ := psub (1 :: sinTaylor 10) (pmul (1 :: tanCoeffs) (1 :: -(1 / 2) :: cosTaylor 10))
+
+set_option maxRecDepth 100000 in
+/-- kernel-evaluated: 16 cells of `[0, 0.786²]`; `|tanG| ≤ 2^-51` -/
+theorem tanG_check : checkAll1 tanG 0 ((393 / 500) ^ 2 / 16) 16 (1 / 2 ^ 51) = true := by
+  decide +kernel
+
+theorem tanQ_abs : absb tanCoeffs ((393 / 500) ^ 2) ≤ 1 := by decide +kernel
+
+theorem tan_sq_range {r : ℝ} (hr : |r| ≤ 393 / 500) : 0 ≤ r ^ 2 ∧ r ^ 2 ≤ (393 / 500) ^ 2 := by
+  have h := pow_le_pow_left₀ (abs_nonneg r) hr 2
+  rw [sq_abs] at h
+  exact ⟨sq_nonneg r, h⟩
+
+theorem cos_rem_le {r : ℝ} (hr : |r| ≤ 393 / 500) :
+    |Real.cos r - ∑ k ∈ range 12, (-1) ^ k * r ^ (2 * k) / ((2 * k).factorial : ℝ)| ≤ 1 / 2 ^ 77 := by
+  refine le_trans (cos_taylor r (le_trans hr (by norm_num)) 12 (by norm_num)) ?_
+  have h24 : |r| ^ (2 * 12) ≤ ((393 : ℝ) / 500) ^ 24 := pow_le_pow_left₀ (abs_nonneg r) hr 24
+  exact le_trans (mul_le_mul_of_nonneg_right h24 (by positivity)) cos_rem_num
+
+theorem tanPoly_le {r : ℝ} (hr : |r| ≤ 393 / 500) : |TanPoly r| ≤ 2 * |r| := by
+  obtain ⟨h0, h1⟩ := tan_sq_range hr
+  unfold TanPoly
+  rw [abs_mul, mul_comm 2]
+  refine mul_le_mul_of_nonneg_left ?_ (abs_nonneg _)
+  have hq := peval_le_absb tanCoeffs (h := (393 / 500) ^ 2) (s := r ^ 2)
+    (by rw [abs_of_nonneg h0]; push_cast; exact h1)
+  have hq' : |peval tanCoeffs (r ^ 2)| ≤ 1 := le_trans hq (by exact_mod_cast tanQ_abs)
+  refine le_trans (abs_add_le _ _) ?_
+  rw [abs_mul, abs_of_nonneg h0, abs_one]
+  have := mul_le_mul h1 hq' (abs_nonneg _) (by positivity)
+  norm_num at this ⊢
+  linarith
+
+theorem tan_decomp (r : ℝ) :
+    Real.sin r - TanPoly r * Real.cos r
+      = (Real.sin r - ∑ k ∈ range 11, (-1) ^ k * r ^ (2 * k + 1) / ((2 * k + 1).factorial : ℝ))
+        - TanPoly r * (Real.cos r - ∑ k ∈ range 12, (-1) ^ k * r ^ (2 * k) / ((2 * k).factorial : ℝ))
+        + r * peval tanG (r ^ 2) := by
+  rw [sin_sum_11, cos_sum_12]
+  unfold TanPoly tanG
+  rw [peval_psub, peval_pmul, peval_cons, peval_cons, peval_cons, peval_cons]
+  push_cast
+  ring
+
+theorem cos_pos_small {r : ℝ} (hr : |r| ≤ 4 / 5) : 0 < Real.cos r := by
+  have hpi := Real.one_le_pi_div_two
+  obtain ⟨h1, h2⟩ := abs_le.1 hr
+  exact Real.cos_pos_of_mem_Ioo ⟨by linarith, by linarith⟩
+
+/-- **approximation error of the tangent polynomial, relative to `tan r`**: `9·2^-54 < 2^-50.8` on `|r| ≤ 0.786`
+(the true maximum is `≈ 2^-52.97` at `r ≈ 0.09`) -/
+theorem tan_poly_rel {r : ℝ} (hr : |r| ≤ 393 / 500) : |Real.tan r - TanPoly r| ≤ 9 / 2 ^ 54 * |Real.tan r| := by
+  obtain ⟨h0, h1⟩ := tan_sq_range hr
+  have hG := checkAll1_sound (by norm_num) (by norm_num) tanG_check (x := r ^ 2)
+    (by simpa using h0) (by push_cast; linarith)
+  have eG : ((1 / 2 ^ 51 : ℚ) : ℝ) = 1 / 2 ^ 51 := by push_cast; rfl
+  rw [eG] at hG
+  have hs := sin_rem_le hr
+  have hc := cos_rem_le hr
+  have hW := tanPoly_le hr
+  have hcos := cos_pos_small (le_trans hr (by norm_num))
+  have hsin := abs_sin_ge' hr
+  have key : |Real.sin r - TanPoly r * Real.cos r| ≤ 9 / 2 ^ 54 * |Real.sin r| := by
+    rw [tan_decomp]
+    refine le_trans (abs_add_le _ _) ?_
+    refine le_trans (add_le_add_left (abs_sub _ _) _) ?_
+    rw [abs_mul, abs_mul]
+    have p1 : |TanPoly r| * |Real.cos r - ∑ k ∈ range 12, (-1) ^ k * r ^ (2 * k) / ((2 * k).factorial : ℝ)|
+        ≤ 2 * |r| * (1 / 2 ^ 77) := mul_le_mul hW hc (abs_nonneg _) (by positivity)
+    have p2 : |r| * |peval tanG (r ^ 2)| ≤ |r| * (1 / 2 ^ 51) := mul_le_mul_of_nonneg_left hG (abs_nonneg _)
+    have p3 : |r| * (1 / 2 ^ 76) + 2 * |r| * (1 / 2 ^ 77) + |r| * (1 / 2 ^ 51)
+        ≤ 9 / 2 ^ 54 * (|r| * (897 / 1000)) := by
+      have : (1 : ℝ) / 2 ^ 76 + 2 * (1 / 2 ^ 77) + 1 / 2 ^ 51 ≤ 9 / 2 ^ 54 * (897 / 1000) := by norm_num
+      have := mul_le_mul_of_nonneg_left this (abs_nonneg r)
+      linarith
+    have p4 := mul_le_mul_of_nonneg_left hsin (by positivity : (0 : ℝ) ≤ 9 / 2 ^ 54)
+    linarith
+  rw [Real.tan_eq_sin_div_cos]
+  have e : Real.sin r / Real.cos r - TanPoly r = (Real.sin r - TanPoly r * Real.cos r) / Real.cos r := by
+    field_simp
+  rw [e, abs_div, abs_div, abs_of_pos hcos, ← mul_div_assoc]
+  exact div_le_div_of_nonneg_right key hcos.le
+
+/-- `cos r ≥ 0.69` on `|r| ≤ 0.787` -/
+theorem cos_ge_small {r : ℝ} (hr : |r| ≤ 787 / 1000) : 69 / 100 ≤ Real.cos r := by
+  have h := Real.one_sub_sq_div_two_le_cos (x := r)
+  have h2 := pow_le_pow_left₀ (abs_nonneg r) hr 2
+  rw [sq_abs] at h2
+  norm_num at h2
+  linarith
+
+/-- `tan a − tan b = sin (a − b) / (cos a · cos b)`, hence a perturbation `δ` of the argument changes `tan` by at most
+`δ·(1 + 2^-50)·(1 + tan² b)` (near `0`) -/
+theorem tan_perturb {a b δ : ℝ} (ha : |a| ≤ 787 / 1000) (hb : |b| ≤ 787 / 1000) (h : |a - b| ≤ δ)
+    (hδ : δ ≤ 1 / 2 ^ 60) :
+    |Real.tan a - Real.tan b| ≤ δ * (1 + 1 / 2 ^ 50) * (1 + Real.tan b ^ 2) := by
+  have ca := cos_ge_small ha
+  have cb := cos_ge_small hb
+  have hca : 0 < Real.cos a := by linarith
+  have hcb : 0 < Real.cos b := by linarith
+  have e1 : Real.tan a - Real.tan b = Real.sin (a - b) / (Real.cos a * Real.cos b) := by
+    rw [Real.tan_eq_sin_div_cos, Real.tan_eq_sin_div_cos, Real.sin_sub]
+    field_simp
+  have e2 : 1 + Real.tan b ^ 2 = 1 / Real.cos b ^ 2 := by
+    rw [Real.tan_eq_sin_div_cos]
+    have := Real.sin_sq_add_cos_sq b
+    field_simp
+    linarith
+  have hs : |Real.sin (a - b)| ≤ δ := le_trans Real.abs_sin_le_abs h
+  have hδ0 : 0 ≤ δ := le_trans (abs_nonneg _) h
+  have hk : Real.cos b ≤ (1 + 1 / 2 ^ 50) * Real.cos a := by
+    have h3 := Real.abs_cos_sub_cos_le b a
+    rw [abs_sub_comm b a] at h3
+    have h4 := (abs_le.1 (le_trans h3 h)).2
+    have : (1 : ℝ) / 2 ^ 60 ≤ 1 / 2 ^ 50 * (69 / 100) := by norm_num
+    have : 1 / 2 ^ 50 * (69 / 100) ≤ 1 / 2 ^ 50 * Real.cos a := mul_le_mul_of_nonneg_left ca (by positivity)
+    linarith
+  rw [e1, e2, abs_div, abs_of_pos (mul_pos hca hcb), div_le_iff₀ (mul_pos hca hcb)]
+  have e3 : δ * (1 + 1 / 2 ^ 50) * (1 / Real.cos b ^ 2) * (Real.cos a * Real.cos b)
+      = δ * ((1 + 1 / 2 ^ 50) * Real.cos a / Real.cos b) := by field_simp
+  rw [e3]
+  have h1 : 1 ≤ (1 + 1 / 2 ^ 50) * Real.cos a / Real.cos b := by rw [le_div_iff₀ hcb]; linarith
+  exact le_trans hs (le_mul_of_one_le_right hδ0 h1)
+
+/-! ## 5. `restricted_atan`: table, approximation error, and the constants of the reduction -/
+
+/-- `hi + lo` of the fifteen entries of the crate's `ATAN_COEFFS`, exactly -/
+def atanCoeffs : List ℚ :=
+  [(-108172851219475575562256158586797 : ℚ) / 2 ^ 108,
+   (129807421463370667615927032406121 : ℚ) / 2 ^ 109,
+   (-92719586759547089182393881400889 : ℚ) / 2 ^ 109,
+   (1153843746336682555257785729730401 : ℚ) / 2 ^ 113,
+   (-118006746757321853012237387095231 : ℚ) / 2 ^ 110,
+   (49925930867520178010502760608357 : ℚ) / 2 ^ 109,
+   (-1384612143214808930819068161217361 : ℚ) / 2 ^ 114,
+   (152713857038176183033413277248343 : ℚ) / 2 ^ 111,
+   (-34157452006783155472897516623997 : ℚ) / 2 ^ 109,
+   (988285862667502016002567745310465 : ℚ) / 2 ^ 114,
+   (-56120306007482183258549918906299 : ℚ) / 2 ^ 110,
+   (100538879961375791786491082729797 : ℚ) / 2 ^ 111,
+   (-5225544337091309046103208945429 : ℚ) / 2 ^ 107,
+   (891332001134996502090896760283589 : ℚ) / 2 ^ 115,
+   (-84252875439496068270083444054627 : ℚ) / 2 ^ 113]
+
+/-- the exact polynomial behind `restricted_atan`: `r·(r²·P(r²) + 1)` -/
+noncomputable def AtanPoly (r : ℝ) : ℝ := r * (r ^ 2 * peval atanCoeffs (r ^ 2) + 1)
+
+def atanPolyQ (r : ℚ) : ℚ := r * (r ^ 2 * pevalQ atanCoeffs (r ^ 2) + 1)
+
+theorem atanPolyQ_cast (r : ℚ) : ((atanPolyQ r : ℚ) : ℝ) = AtanPoly (r : ℝ) := by
+  unfold atanPolyQ AtanPoly; push_cast; rw [pevalQ_cast]; push_cast; ring
+
+/-- the interval of `restricted_atan`: `|r| ≤ 7/16 + 2^-20` -/
+def atanRho : ℚ := 7 / 16 + 1 / 2 ^ 20
+
+def atanT0 : ℚ := atanRho ^ 2
+
+/-- the Taylor polynomial of `arctan` of degree 71 -/
+def atanA : List ℚ := podd (atanT 36)
+
+set_option maxRecDepth 100000 in
+theorem atanA_check : absb (psub [1] (pmul (pderiv atanA) [1, 0, 1])) atanRho ≤ 1 / 2 ^ 85 := by
+  decide +kernel
+
+/-- **Taylor polynomial of `arctan` of degree 71 on `|r| ≤ 7/16 + 2^-20`**: relative remainder `≤ 2^-85` -/
+theorem arctan_taylor {r : ℝ} (hr : |r| ≤ (atanRho : ℝ)) :
+    |Real.arctan r - r * peval (atanT 36) (r ^ 2)| ≤ 1 / 2 ^ 85 * |r| := by
+  have h := arctan_approx (A := atanA) (ρ := atanRho) (δ := 1 / 2 ^ 85) (by decide +kernel) atanA_check hr
+  unfold atanA at h
+  rw [peval_podd] at h
+  refine le_trans h (mul_le_mul_of_nonneg_right ?_ (abs_nonneg _))
+  push_cast
+  norm_num
+
+/-- `Taylor − table` -/
+def atanG : List ℚ := psub (atanT 36) (1 :: atanCoeffs)
+
+set_option maxRecDepth 100000 in
+/-- kernel-evaluated: 4 cells of `[0, T/16]`, `T = (7/16 + 2^-20)²`: `|atanG| ≤ 2^-72` -/
+theorem atanG_checkA : checkAll1 atanG 0 (atanT0 / 64) 4 (1 / 2 ^ 72) = true := by
+  decide +kernel
+
+set_option maxRecDepth 100000 in
+/-- kernel-evaluated: 15 cells of `[T/16, T]`: `|atanG| ≤ 2^-73` -/
+theorem atanG_checkB : checkAll1 atanG (atanT0 / 16) (atanT0 / 16) 15 (1 / 2 ^ 73) = true := by
+  decide +kernel
+
+theorem atan_decomp (r : ℝ) :
+    Real.arctan r - AtanPoly r
+      = (Real.arctan r - r * peval (atanT 36) (r ^ 2)) + r * peval atanG (r ^ 2) := by
+  unfold AtanPoly atanG
+  rw [peval_psub, peval_cons]
+  push_cast
+  ring
+
+theorem atan_sq_range {r : ℝ} (hr : |r| ≤ (atanRho : ℝ)) : r ^ 2 ≤ (atanT0 : ℝ) := by
+  have h := pow_le_pow_left₀ (abs_nonneg r) hr 2
+  rw [sq_abs] at h
+  unfold atanT0
+  push_cast
+  exact h
+
+theorem atanG_bound {r : ℝ} (hr : |r| ≤ (atanRho : ℝ)) : |peval atanG (r ^ 2)| ≤ 1 / 2 ^ 72 := by
+  have ht := atan_sq_range hr
+  have h0 : (0 : ℝ) ≤ r ^ 2 := sq_nonneg r
+  have hT0 : (0 : ℚ) < atanT0 := by unfold atanT0 atanRho; positivity
+  by_cases hc : r ^ 2 ≤ (atanT0 : ℝ) / 16
+  · have hA := checkAll1_sound (by linarith [hT0] : (0 : ℚ) < atanT0 / 64) (by norm_num) atanG_checkA
+      (x := r ^ 2) (by simpa using h0) (by push_cast; linarith)
+    have eA : ((1 / 2 ^ 72 : ℚ) : ℝ) = 1 / 2 ^ 72 := by push_cast; rfl
+    rw [eA] at hA
+    exact hA
+  · have hc' : (atanT0 : ℝ) / 16 ≤ r ^ 2 := (not_le.1 hc).le
+    have hB := checkAll1_sound (by linarith [hT0] : (0 : ℚ) < atanT0 / 16) (by norm_num) atanG_checkB
+      (x := r ^ 2) (by push_cast; linarith) (by push_cast; linarith)
+    have eB : ((1 / 2 ^ 73 : ℚ) : ℝ) = 1 / 2 ^ 73 := by push_cast; rfl
+    rw [eB] at hB
+    exact le_trans hB (by norm_num)
+
+/-- **approximation error of the arctangent polynomial, relative to `|r|`**: `2^-72 + 2^-85`, on `|r| ≤ 7/16 + 2^-20`
+(the true maximum of the error relative to `arctan r` is `≈ 2^-73.19` at `r ≈ 0.05`) -/
+theorem atan_poly_rel {r : ℝ} (hr : |r| ≤ (atanRho : ℝ)) :
+    |Real.arctan r - AtanPoly r| ≤ |r| * (1 / 2 ^ 72 + 1 / 2 ^ 85) := by
+  rw [atan_decomp]
+  refine le_trans (abs_add_le _ _) ?_
+  have h1 := arctan_taylor hr
+  have h2 := atanG_bound hr
+  rw [abs_mul]
+  have h3 := mul_le_mul_of_nonneg_left h2 (abs_nonneg r)
+  linarith
+
+theorem atanT_split : atanT 36 = 1 :: (atanT 36).tail := by decide +kernel
+
+theorem atanTail_abs : absb (atanT 36).tail atanT0 ≤ 2 / 5 := by decide +kernel
+
+/-- `|arctan r| ≥ 0.9·|r|` on `|r| ≤ 7/16 + 2^-20` -/
+theorem abs_arctan_ge {r : ℝ} (hr : |r| ≤ (atanRho : ℝ)) : 9 / 10 * |r| ≤ |Real.arctan r| := by
+  have ht := atan_sq_range hr
+  have h0 : (0 : ℝ) ≤ r ^ 2 := sq_nonneg r
+  have h1 := arctan_taylor hr
+  have hq := peval_le_absb (atanT 36).tail (h := atanT0) (s := r ^ 2) (by rw [abs_of_nonneg h0]; exact ht)
+  have hq' : |peval (atanT 36).tail (r ^ 2)| ≤ 2 / 5 := by
+    refine le_trans hq ?_
+    have := (Rat.cast_le (K := ℝ)).2 atanTail_abs
+    push_cast at this
+    exact this
+  have hT : (atanT0 : ℝ) ≤ 1 / 5 := by unfold atanT0 atanRho; push_cast; norm_num
+  have hP : |peval (atanT 36) (r ^ 2) - 1| ≤ 2 / 25 := by
+    rw [atanT_split, peval_cons]
+    push_cast
+    rw [add_sub_cancel_left, abs_mul, abs_of_nonneg h0]
+    have := mul_le_mul (le_trans ht hT) hq' (abs_nonneg _) (by norm_num)
+    linarith
+  have hP1 : 23 / 25 ≤ |peval (atanT 36) (r ^ 2)| := by
+    have := abs_sub_abs_le_abs_sub (1 : ℝ) (peval (atanT 36) (r ^ 2))
+    rw [abs_one, abs_sub_comm] at this
+    linarith
+  have h2 : |r * peval (atanT 36) (r ^ 2)| ≤ |Real.arctan r| + 1 / 2 ^ 85 * |r| := by
+    have := abs_add_le (r * peval (atanT 36) (r ^ 2) - Real.arctan r) (Real.arctan r)
+    rw [sub_add_cancel, abs_sub_comm] at this
+    linarith
+  rw [abs_mul] at h2
+  have h3 : |r| * (23 / 25) ≤ |r| * |peval (atanT 36) (r ^ 2)| := mul_le_mul_of_nonneg_left hP1 (abs_nonneg _)
+  have h4 : (1 : ℝ) / 2 ^ 85 * |r| ≤ 1 / 50 * |r| := mul_le_mul_of_nonneg_right (by norm_num) (abs_nonneg _)
+  linarith
+
+/-- `arctan x = arctan c + arctan ((x − c)/(1 + c·x))` for `x, c ≥ 0` (the reduction of the crate) -/
+theorem arctan_sub_const {x c : ℝ} (hx : 0 ≤ x) (hc : 0 ≤ c) :
+    Real.arctan x = Real.arctan c + Real.arctan ((x - c) / (1 + c * x)) := by
+  have hp : 0 < 1 + c * x := by positivity
+  have hlt : c * ((x - c) / (1 + c * x)) < 1 := by
+    rw [mul_div_assoc', div_lt_one hp]
+    nlinarith [sq_nonneg c]
+  have h1 : 0 < 1 + c ^ 2 := by positivity
+  have h2 : 1 - c * ((x - c) / (1 + c * x)) = (1 + c ^ 2) / (1 + c * x) := by field_simp; ring
+  have h3 : c + (x - c) / (1 + c * x) = x * (1 + c ^ 2) / (1 + c * x) := by field_simp; ring
+  have e : (c + (x - c) / (1 + c * x)) / (1 - c * ((x - c) / (1 + c * x))) = x := by
+    rw [h2, h3, div_div_div_cancel_right₀ hp.ne', mul_div_assoc, div_self h1.ne', mul_one]
+  rw [Real.arctan_add hlt, e]
+
+theorem arctan_three_halves : Real.arctan (3 / 2) = Real.pi / 4 + Real.arctan (1 / 5) := by
+  rw [← Real.arctan_one, Real.arctan_add (by norm_num)]
+  congr 1
+  norm_num
+
+set_option maxRecDepth 100000 in
+theorem atanHalf_check : absb (psub [1] (pmul (pderiv (podd (atanT 60))) [1, 0, 1])) (1 / 2) ≤ 1 / 2 ^ 119 := by
+  decide +kernel
+
+set_option maxRecDepth 100000 in
+theorem atanFifth_check : absb (psub [1] (pmul (pderiv (podd (atanT 30))) [1, 0, 1])) (1 / 5) ≤ 1 / 2 ^ 130 := by
+  decide +kernel
+
+/-- rational enclosure of `arctan (1/2)` to `2^-120` -/
+theorem arctan_half_encl :
+    |Real.arctan (1 / 2) - ((pevalQ (podd (atanT 60)) (1 / 2) : ℚ) : ℝ)| ≤ 1 / 2 ^ 120 := by
+  have h := arctan_approx (A := podd (atanT 60)) (ρ := 1 / 2) (δ := 1 / 2 ^ 119) (by decide +kernel)
+    atanHalf_check (r := 1 / 2) (by push_cast; norm_num)
+  rw [pevalQ_cast]
+  push_cast at h ⊢
+  refine le_trans h ?_
+  norm_num
+
+/-- rational enclosure of `arctan (1/5)` to `2^-130` -/
+theorem arctan_fifth_encl :
+    |Real.arctan (1 / 5) - ((pevalQ (podd (atanT 30)) (1 / 5) : ℚ) : ℝ)| ≤ 1 / 2 ^ 130 := by
+  have h := arctan_approx (A := podd (atanT 30)) (ρ := 1 / 5) (δ := 1 / 2 ^ 130) (by decide +kernel)
+    atanFifth_check (r := 1 / 5) (by push_cast; norm_num)
+  rw [pevalQ_cast]
+  push_cast at h ⊢
+  refine le_trans h ?_
+  norm_num
+
 end ATrigBound
